@@ -45,8 +45,10 @@ UNPROVED = {
     "C08": ["Relic.Props.C08.rpm_history_full (every later round succeeds on relic's own output and replaces exactly what the round before "
             "wrote: needs rpm_header_roundtrip_full; proved per round: rpm_history_partial, rpm_resign_replaces, rpm_reserved_space; "
             "executed per hist op with exact sizes)"],
-    "C11": ["Relic.Props.C11.rpm_no_panic_full (FALSE on the unchanged code: rpm_no_panic_false; the panic conditions are characterised: "
-            "rpm_parse_entry_panic_iff, rpm_sha_count0_panics, rpm_nevra_nil_panics; findings F-RPM-1..4)"],
+    "C11": ["Relic.Props.C11.rpm_alloc_bounded_full (allocation proportional to the input: FALSE, rpm_alloc_unbounded / rpm_alloc_is_declared, "
+            "finding F-RPM-4 in third-party readHeader; the panic part rpm_no_panic_full is proved at full strength for the current code "
+            "(rpm_no_panic, rpm_former_panic_is_malformed; f356386), the code before: rpm_no_panic_false_orig, rpm_parse_entry_panic_iff_orig, "
+            "rpm_sha_count0_panics_orig, rpm_nevra_nil_panics_orig, rpm_verify_panics_without_name_orig)"],
     "C06": [],
 }
 
@@ -223,7 +225,9 @@ def predicate(prop, op, il, mres, tag):
     kv = _kv(tag)
     if prop == "C11":
         if il.startswith("panic") or " panic " in il:
-            return ("Relic.Props.C11.rpm_no_panic", "error or result", "relic's rpm signer module panics on this input: " + il[:80])
+            return ("Relic.Props.C11.rpm_no_panic", mres[:60] or "error or result",
+                    "relic's rpm signer module panics on this input (since f356386 sign / verify recover parser panics into "
+                    "'malformed RPM' and nevra() returns \"\" when GetNEVRA fails): " + il[:80])
         if " A=1" in il:
             return ("Relic.Props.C11.rpm_alloc_bounded", "allocation <= 64 MiB + 64*len(input)",
                     "rpmutils.readHeader allocates what the header intro declares before reading it")
